@@ -1473,6 +1473,9 @@ class Engine(object):
                     return [(o.fields[name], st)]
                 if o.cls in C.DICT_RECORDS or ('%s.%s' % (o.cls, name)) in self.method_models:
                     return [(VBound(v, name), st)]
+                if o.cls in C.ASSTR and hasattr(str, name):
+                    # an object that is a str in one of its variants, used as that str
+                    return [(VBound(o.fields[C.ASSTR[o.cls]], name), st)]
                 return self.instance_attr(v, o, name, st, node)
             return [(VBound(v, name), st)]
         from . import flagdict as _fd2
@@ -1538,6 +1541,7 @@ class Engine(object):
         raise Undecided('attribute %s of a %s object is not declared in its record' % (name, o.cls), node)
 
     def real_class(self, name):
+        name = C.CLASS_ALIAS.get(name, name)
         for modname in ('xdoctest.doctest_example', 'xdoctest.doctest_part', 'xdoctest.directive',
                         'xdoctest.checker', 'xdoctest.parser', 'xdoctest.utils.util_stream',
                         'xdoctest.utils.util_import', 'xdoctest.static_analysis', 'xdoctest.runner',
